@@ -49,6 +49,14 @@ def build(t, rnd):
     return nodes
 
 
+CUSTOM_TZ_CAL2 = (b"BEGIN:VCALENDAR\r\nVERSION:2.0\r\nPRODID:x\r\nBEGIN:VTIMEZONE\r\nTZID:Custom/Verif-Ex\r\nBEGIN:STANDARD\r\nDTSTART:19701025T030000\r\n"
+                  b"RRULE:FREQ=YEARLY;BYDAY=-1SU;BYMONTH=10\r\nEXDATE:20231029T030000\r\nRDATE:20231112T030000\r\nTZOFFSETFROM:+0200\r\nTZOFFSETTO:+0100\r\nTZNAME:CET\r\n"
+                  b"END:STANDARD\r\nBEGIN:DAYLIGHT\r\nDTSTART:19700329T020000\r\nRRULE:FREQ=YEARLY;BYDAY=-1SU;BYMONTH=3\r\nEXDATE:20220327T020000\r\nTZOFFSETFROM:+0100\r\n"
+                  b"TZOFFSETTO:+0200\r\nTZNAME:CEST\r\nEND:DAYLIGHT\r\nEND:VTIMEZONE\r\nBEGIN:VEVENT\r\nUID:1\r\nDTSTART;TZID=Custom/Verif-Ex:20231105T100000\r\n"
+                  b"DTEND;TZID=Custom/Verif-Ex:20231120T100000\r\nEND:VEVENT\r\nBEGIN:VTODO\r\nUID:2\r\nDUE;TZID=Custom/Verif-Ex:20220601T100000\r\n"
+                  b"RDATE;TZID=Custom/Verif-Ex:20231030T100000,20231113T100000\r\nEND:VTODO\r\nEND:VCALENDAR\r\n")
+
+
 def alpha(comp):
     """flat projection: par / nm / pr (canonical string of the property map)"""
     par, nm, pr = [], [], []
@@ -212,7 +220,8 @@ def run(ctx: Ctx):
             tzp.use(prov)
             tzs = [None, "UTC", "Europe/Berlin", "America/New_York"]
             if i % 5 == 4:
-                cal = Calendar.from_ical(CUSTOM_TZ_CAL)
+                # alternately: a custom zone whose yearly rule has an EXDATE and an RDATE, with events inside the span they affect
+                cal = Calendar.from_ical(CUSTOM_TZ_CAL2 if (i // 10) % 2 else CUSTOM_TZ_CAL)    # each under both providers
             else:
                 cal = random_tree(rnd, rnd.randint(2, 6), tzs)
             a = alpha(cal)
